@@ -31,6 +31,9 @@ type inst struct {
 	reuse   bool
 	scratch []byte
 	off     int
+	// kind of the last operation relative to the reference state it was applied to (violation keys name the
+	// kind - "Ins(cost update to 0)" - not the prefix/face/cost instance; the instance is in Detail/Replay)
+	kind string
 }
 
 // arg returns the name to hand to a table for URI s.
@@ -65,6 +68,9 @@ type universe struct {
 	faces    []uint64
 	costs    []uint64
 	strats   []string
+	// replaceAll: the Replace alphabet holds EVERY map faces -> (absent | one of costs), not only the
+	// three representative sets (value universes: cost / face values are the dimension explored)
+	replaceAll bool
 }
 
 var (
@@ -139,6 +145,22 @@ func newSys(u universe, m uint16) *sys {
 			for _, c := range u.costs {
 				f, c := f, c
 				add(fmt.Sprintf("Ins(%s,f%d,c%d)", p, f, c), func(in *inst) {
+					in.kind = "Ins(first next hop of the prefix)"
+					if e := in.ref[p]; e != nil && len(e.nh) > 0 {
+						old, ok := e.nh[f]
+						switch {
+						case !ok:
+							in.kind = "Ins(further face)"
+						case old == c:
+							in.kind = "Ins(same cost again)"
+						case c == 0:
+							in.kind = "Ins(cost update to 0)"
+						case old == 0:
+							in.kind = "Ins(cost update from 0)"
+						default:
+							in.kind = "Ins(cost update)"
+						}
+					}
 					in.tree.InsertNextHopEnc(in.arg(p), f, c)
 					in.ht.InsertNextHopEnc(nm(p), f, c)
 					ent(in, p).nh[f] = c
@@ -151,6 +173,14 @@ func newSys(u universe, m uint16) *sys {
 		for _, f := range u.faces {
 			f := f
 			add(fmt.Sprintf("Rem(%s,f%d)", p, f), func(in *inst) {
+				in.kind = "Rem(absent)"
+				if e := in.ref[p]; e != nil {
+					if _, ok := e.nh[f]; ok && len(e.nh) == 1 {
+						in.kind = "Rem(last next hop)"
+					} else if ok {
+						in.kind = "Rem(one of several)"
+					}
+				}
 				in.tree.RemoveNextHopEnc(in.arg(p), f)
 				in.ht.RemoveNextHopEnc(nm(p), f)
 				if e := in.ref[p]; e != nil {
@@ -163,6 +193,7 @@ func newSys(u universe, m uint16) *sys {
 	for _, p := range u.prefixes {
 		p := p
 		add(fmt.Sprintf("Clear(%s)", p), func(in *inst) {
+			in.kind = "Clear"
 			in.tree.ClearNextHopsEnc(in.arg(p))
 			in.ht.ClearNextHopsEnc(nm(p))
 			if e := in.ref[p]; e != nil {
@@ -179,6 +210,9 @@ func newSys(u universe, m uint16) *sys {
 		if len(u.faces) > 1 {
 			sets = append(sets, map[uint64]uint64{u.faces[0]: u.costs[0], u.faces[1]: u.costs[len(u.costs)-1]})
 		}
+		if u.replaceAll {
+			sets = allSets(u.faces, u.costs)
+		}
 		for _, set := range sets {
 			set := set
 			keys := []string{}
@@ -187,6 +221,22 @@ func newSys(u universe, m uint16) *sys {
 			}
 			sort.Strings(keys)
 			add(fmt.Sprintf("Replace(%s,{%s})", p, strings.Join(keys, ",")), func(in *inst) {
+				in.kind = "Replace"
+				if len(set) == 0 {
+					in.kind = "Replace(empty)"
+				} else if e := in.ref[p]; e != nil && len(e.nh) > 0 {
+					same := len(e.nh) == len(set)
+					for f := range set {
+						if _, ok := e.nh[f]; !ok {
+							same = false
+						}
+					}
+					if same {
+						in.kind = "Replace(same faces, costs only)"
+					} else {
+						in.kind = "Replace(other face set)"
+					}
+				}
 				cp := func() map[uint64]uint64 {
 					m := map[uint64]uint64{}
 					for f, c := range set {
@@ -212,6 +262,7 @@ func newSys(u universe, m uint16) *sys {
 		for _, st := range u.strats {
 			st := st
 			add(fmt.Sprintf("SetS(%s,%s)", p, st[len("/localhost/nfd/strategy/"):]), func(in *inst) {
+				in.kind = "SetS"
 				in.tree.SetStrategyEnc(in.arg(p), in.arg(st))
 				in.ht.SetStrategyEnc(nm(p), nm(st))
 				ent(in, p).strat = st
@@ -220,6 +271,10 @@ func newSys(u universe, m uint16) *sys {
 	}
 	for _, p := range u.prefixes {
 		p := p
+		if len(u.strats) == 0 {
+			// value universes without strategies: no strategy operations at all
+			continue
+		}
 		if p == "/" {
 			// "the root always has one: it can be replaced but not unset" is a precondition of the
 			// table API (management refuses to unset the root, checked in C17; the repository's own
@@ -228,6 +283,7 @@ func newSys(u universe, m uint16) *sys {
 			continue
 		}
 		add(fmt.Sprintf("Unset(%s)", p), func(in *inst) {
+			in.kind = "Unset"
 			in.tree.UnSetStrategyEnc(in.arg(p))
 			in.ht.UnSetStrategyEnc(nm(p))
 			if e := in.ref[p]; e != nil {
@@ -237,6 +293,28 @@ func newSys(u universe, m uint16) *sys {
 		})
 	}
 	return s
+}
+
+// allSets enumerates every map faces -> (absent | one of costs), the empty map first.
+func allSets(faces, costs []uint64) []map[uint64]uint64 {
+	out := []map[uint64]uint64{}
+	n := 1
+	for range faces {
+		n *= len(costs) + 1
+	}
+	for i := 0; i < n; i++ {
+		m := map[uint64]uint64{}
+		x := i
+		for _, f := range faces {
+			d := x % (len(costs) + 1)
+			x /= len(costs) + 1
+			if d > 0 {
+				m[f] = costs[d-1]
+			}
+		}
+		out = append(out, m)
+	}
+	return out
 }
 
 func (s *sys) New() any {
@@ -281,7 +359,8 @@ func prefixesOf(n enc.Name) []string {
 func (s *sys) check(in *inst, last string) (v []report.Violation) {
 	seen := map[string]bool{}
 	bad := func(clause, key, detail string) {
-		key = key + " after " + last
+		key = key + " after " + in.kind
+		detail = "after " + last + ": " + detail
 		if seen[clause+key] {
 			return
 		}
@@ -388,21 +467,45 @@ func (s *sys) Canon(i any) string {
 	return b.String()
 }
 
+const (
+	c32  = uint64(1) << 32 // first value that does not fit 32 bits
+	c63  = uint64(1) << 63 // first value that is negative as int64
+	cMax = ^uint64(0)
+)
+
+// Cost values per universe: every universe except deep holds cost 0 next to a non-zero cost, so that every
+// kind of UPDATE of an existing next hop (x -> 0, 0 -> x, x -> x, 0 -> 0) is in its alphabet, through
+// InsertNextHopEnc and through ReplaceNextHopsEnc; the value universes cost / costs / faces explore the
+// value dimension itself (0, 1, 2^32, 2^63, 2^64-1 as cost; 0, 2^32, 2^64-1 as face id; every Replace map).
 var universes = map[string]universe{
 	// tiny alphabet for a deep history search without state de-duplication
-	"tiny": {prefixes: []string{"/a", "/a/b"}, faces: []uint64{1, 2}, costs: []uint64{1}, strats: []string{mcName}},
+	"tiny": {prefixes: []string{"/a", "/a/b"}, faces: []uint64{1, 2}, costs: []uint64{0, 1}, strats: []string{mcName}},
 	// names whose components concatenate to the same bytes when the boundaries are forgotten: /a/b versus the
 	// single component "a" + <8-byte type 8> + "b" (what Component.HashInto feeds per component is type
 	// and value), and versus the 1-byte-type reading /a%08b
-	"ambig": {prefixes: []string{"/a", "/a/b", "/a%00%00%00%00%00%00%00%08b", "/a%08b"}, faces: []uint64{1, 2}, costs: []uint64{1}, strats: []string{mcName}},
+	"ambig": {prefixes: []string{"/a", "/a/b", "/a%00%00%00%00%00%00%00%08b", "/a%08b"}, faces: []uint64{1, 2}, costs: []uint64{0, 1}, strats: []string{mcName}},
 	// sibling prefixes whose components differ in TYPE only (equal value bytes): generic x vs 32=x (keyword),
 	// version 1 vs segment 1, at the first and at the second level
-	"typed": {prefixes: []string{"/a/x", "/a/32=x", "/a/v=1", "/a/seg=1", "/x", "/32=x"}, faces: []uint64{1, 2}, costs: []uint64{1}, strats: []string{mcName}},
+	"typed": {prefixes: []string{"/a/x", "/a/32=x", "/a/v=1", "/a/seg=1", "/x", "/32=x"}, faces: []uint64{1, 2}, costs: []uint64{0, 1}, strats: []string{mcName}},
 	// the caller of the name-tree FIB decodes every name (prefixes and strategy names) from one buffer it re-uses after each call
-	"reuse": {reuse: true, prefixes: []string{"/a", "/a/b", "/x/y", "/a/b/c"}, faces: []uint64{1, 2}, costs: []uint64{1}, strats: []string{brName, mcName}},
-	"small": {prefixes: []string{"/", "/a", "/a/b", "/a/b/c"}, faces: []uint64{1}, costs: []uint64{1, 2}, strats: []string{mcName}},
-	"full":  {prefixes: []string{"/", "/a", "/a/b", "/a/b/c", "/a/b/c/d", "/a/x", "/e"}, faces: []uint64{1, 2}, costs: []uint64{1, 2}, strats: []string{brName, mcName}},
+	"reuse": {reuse: true, prefixes: []string{"/a", "/a/b", "/x/y", "/a/b/c"}, faces: []uint64{1, 2}, costs: []uint64{0, 1}, strats: []string{brName, mcName}},
+	"small": {prefixes: []string{"/", "/a", "/a/b", "/a/b/c"}, faces: []uint64{1}, costs: []uint64{0, 1}, strats: []string{mcName}},
+	"full":  {prefixes: []string{"/", "/a", "/a/b", "/a/b/c", "/a/b/c/d", "/a/x", "/e"}, faces: []uint64{1, 2}, costs: []uint64{0, 2}, strats: []string{brName, mcName}},
 	"deep":  {prefixes: []string{"/", "/a", "/a/b", "/a/b/c", "/a/b/c/d", "/a/b/c/d/e", "/a/b/c/d/e/f", "/a/b/c/d/e/f/g", "/a/b/x", "/a/b/c/d/e/x"}, faces: []uint64{1}, costs: []uint64{1}, strats: []string{mcName}},
+	// VALUE universes (no strategies; Replace alphabet = every map faces -> absent|cost), explored to a fixpoint:
+	// cost: two nested prefixes (the shorter one answers for the longer one as soon as that is emptied), two
+	// faces, costs 0 / 1 / 2^64-1: every update x -> y of an existing next hop including x == y, update then
+	// remove, two faces swapping their costs (by two inserts or by one Replace), Replace to and from cost 0
+	"cost": {prefixes: []string{"/a", "/a/b"}, faces: []uint64{1, 2}, costs: []uint64{0, 1, cMax}, replaceAll: true},
+	// costs: one prefix, the boundary values of the cost type
+	"costs": {prefixes: []string{"/a/b"}, faces: []uint64{1, 2}, costs: []uint64{0, 1, c32, c63, cMax}, replaceAll: true},
+	// faces: one prefix, the boundary values of the face-id type (three faces: removal from the middle of the list)
+	"faces": {prefixes: []string{"/a/b"}, faces: []uint64{0, c32, cMax}, costs: []uint64{0, 7}, replaceAll: true},
+	// costS: cost updates on entries that also hold (or only hold) a strategy choice: an entry kept alive by
+	// its strategy while its next hops come and go, cost updates of an entry whose strategy is then unset
+	"costS": {prefixes: []string{"/a", "/a/b"}, faces: []uint64{1, 2}, costs: []uint64{0, cMax}, strats: []string{mcName}, replaceAll: true},
+	// thorough tier: cost with the 2^63 boundary as well
+	"cost4": {prefixes: []string{"/a", "/a/b"}, faces: []uint64{1, 2}, costs: []uint64{0, 1, c63, cMax}, replaceAll: true},
 }
 
 func build(cfg string) explore.System {
@@ -417,6 +520,26 @@ func main() {
 		ID: "C05", PanicClause: "C05.panic", Build: build,
 		Configs: func(th bool) []explore.Config {
 			var c []explore.Config
+			// value universes first, the cheapest first (small, explored to a fixpoint; what they leave of their
+			// share of the budget goes to the later ones)
+			for m := 1; m <= 3; m++ {
+				c = append(c, explore.Config{Name: fmt.Sprintf("costs m=%d", m), MaxDepth: 64, MaxDev: -1})
+				c = append(c, explore.Config{Name: fmt.Sprintf("faces m=%d", m), MaxDepth: 64, MaxDev: -1})
+			}
+			c = append(c, explore.Config{Name: "audit(no dedup) costs m=2", BuildName: "costs m=2", MaxDepth: 2, MaxDev: -1, NoDedup: true})
+			for m := 1; m <= 3; m++ {
+				// m=1: /a lies at the virtual depth, m=2: /a/b does, m=3: both are shorter (thorough only: the
+				// next-hop update code does not depend on m)
+				if th || m <= 2 {
+					c = append(c, explore.Config{Name: fmt.Sprintf("cost m=%d", m), MaxDepth: 64, MaxDev: -1})
+				}
+				if th || m == 2 {
+					c = append(c, explore.Config{Name: fmt.Sprintf("costS m=%d", m), MaxDepth: 64, MaxDev: -1})
+				}
+				if th {
+					c = append(c, explore.Config{Name: fmt.Sprintf("cost4 m=%d", m), MaxDepth: 64, MaxDev: -1})
+				}
+			}
 			for m := 1; m <= 6; m++ {
 				if m <= 4 {
 					c = append(c, explore.Config{Name: fmt.Sprintf("small m=%d", m), MaxDepth: 64, MaxDev: -1})
@@ -452,11 +575,12 @@ func main() {
 			}
 			return 100 * time.Second
 		},
-		Rule: "BFS over histories of InsertNextHop/RemoveNextHop/ClearNextHops/SetStrategy/UnSetStrategy on the real tree FIB and the real hash-table FIB (m=1..6) side by side; after every transition every lookup name (each prefix, one and two unknown components below it) and both listings are compared with a reference map; states de-duplicated on reference map + private shape of both tables",
+		Rule: "BFS over histories of InsertNextHop/RemoveNextHop/ClearNextHops/ReplaceNextHops/SetStrategy/UnSetStrategy on the real tree FIB and the real hash-table FIB (m=1..6) side by side; after every transition every lookup name (each prefix, one and two unknown components below it) and both listings are compared with a reference map; states de-duplicated on reference map + private shape of both tables; value universes (cost, costs, faces, costS; m=1..3) are explored to a fixpoint with cost values 0/1/2^32/2^63/2^64-1, face ids 0/2^32/2^64-1 and every ReplaceNextHops map over them, so every update x->y of an existing next hop (x==y, to and from 0, two faces swapping costs, update then remove) is executed",
 		Assumptions: []string{
 			"equal canonical state (reference map + tree node dump + hash-table real/virtual table dump) implies equal futures",
 			"reuse configurations: the name-tree FIB owns what it keeps (a caller may re-use the memory of a prefix or strategy name once the call has returned), as it does on the unchanged tree; the hash-table FIB keeps the slices it is given and is driven with private memory",
-			"name universes are finite: small (4 nested prefixes, fixpoint), full (7 prefixes incl. siblings, 2 faces, 2 costs), deep (chain to depth 7 crossing every m), ambig (names whose components concatenate to the same bytes), typed (sibling components that differ in type only)",
+			"value universes are finite: cost values {0, 1, 2^32, 2^63, 2^64-1}, face ids {0, 1, 2, 2^32, 2^64-1}; every universe except deep has cost 0 next to a non-zero cost",
+			"name universes are finite: small (4 nested prefixes, fixpoint), full (7 prefixes incl. siblings, 2 faces, costs 0 and 2), deep (chain to depth 7 crossing every m), ambig (names whose components concatenate to the same bytes), typed (sibling components that differ in type only)",
 		},
 	})
 }
